@@ -3,7 +3,7 @@ import SlicecVerif.Model.Comment
 
 namespace Slicec
 
-/-! ## indentation: byte index, dropping bytes -/
+/-! ## indentation: counting whitespace characters -/
 
 def spaces (k : Nat) : Str := List.replicate k ' '
 
@@ -11,145 +11,143 @@ def spaces (k : Nat) : Str := List.replicate k ' '
 def StartsNonWs (body : Str) : Prop := ∃ c r, body = c :: r ∧ isWsC c = false
 
 theorem isWs_space : isWsC ' ' = true := by decide
-theorem utf8Size_space : (' ' : Char).utf8Size = 1 := by decide
 
-theorem wsIndexAux_spaces (k : Nat) (body : Str) (h : StartsNonWs body) :
-    wsIndexAux (spaces k ++ body) = some k := by
-  obtain ⟨c, r, rfl, hc⟩ := h
-  induction k with
-  | zero => simp [spaces, wsIndexAux, hc]
-  | succ k ih =>
-    have : spaces (k + 1) ++ c :: r = ' ' :: (spaces k ++ c :: r) := by simp [spaces, List.replicate_succ]
-    rw [this, wsIndexAux, if_pos isWs_space, ih]
-    simp [utf8Size_space]
+theorem spaces_all_ws (k : Nat) : (spaces k).all isWsC = true := by
+  simp only [List.all_eq_true, spaces]
+  intro x hx
+  rw [(List.mem_replicate.mp hx).2]; exact isWs_space
 
-theorem wsIndex_spaces (k : Nat) (body : Str) (h : StartsNonWs body) : wsIndex (spaces k ++ body) = k := by
-  simp [wsIndex, wsIndexAux_spaces k body h]
+theorem leadWs_le (t : Str) : leadWs t ≤ t.length := by
+  unfold leadWs
+  induction t with
+  | nil => simp
+  | cons c cs ih =>
+    rw [List.takeWhile_cons]
+    split <;> simp <;> omega
 
-theorem dropBytes_spaces (k m : Nat) (body : Str) (h : m ≤ k) :
-    dropBytes (spaces k ++ body) m = some (spaces (k - m) ++ body) := by
-  induction m generalizing k with
-  | zero => simp [dropBytes]
-  | succ m ih =>
-    cases k with
-    | zero => omega
-    | succ k =>
-      have : spaces (k + 1) ++ body = ' ' :: (spaces k ++ body) := by simp [spaces, List.replicate_succ]
-      rw [this, dropBytes, utf8Size_space, if_pos (by omega)]
-      have h2 : m + 1 - 1 = m := by omega
-      rw [h2, ih k (by omega)]
-      have : k + 1 - (m + 1) = k - m := by omega
-      rw [this]
+/-- `whitespace_count == text.chars().count()` says that the text consists of whitespace only -/
+theorem leadWs_eq_length (t : Str) : (leadWs t == t.length) = t.all isWsC := by
+  unfold leadWs
+  induction t with
+  | nil => simp
+  | cons c cs ih =>
+    rw [List.takeWhile_cons]
+    cases hc : isWsC c with
+    | true => simpa [hc] using ih
+    | false => simp [hc]
 
-/-! ## the shape of lines the common-indentation theorem talks about -/
+theorem leadWs_append (ws body : Str) (hws : ws.all isWsC = true) (hb : StartsNonWs body) : leadWs (ws ++ body) = ws.length := by
+  obtain ⟨c, r, rfl, hc⟩ := hb
+  unfold leadWs
+  induction ws with
+  | nil => simp [hc]
+  | cons w ws ih =>
+    simp only [List.all_cons, Bool.and_eq_true] at hws
+    simp [hws.1, ih hws.2]
 
-/-- a written line: empty, or `k` spaces, a body that starts with a non-blank character, and further components -/
-abbrev ILine := Option (Nat × Str × List Comp)
+theorem not_all_ws_append (ws body : Str) (hb : StartsNonWs body) : (ws ++ body).all isWsC = false := by
+  obtain ⟨c, r, rfl, hc⟩ := hb
+  simp [hc]
 
-def ILine.toMLine : ILine → MLine
-  | none => none
-  | some (k, body, rest) => some (.text (spaces k ++ body), rest)
+/-- the first `m ≤ leadWs t` characters of a text are whitespace -/
+theorem take_all_ws (t : Str) (m : Nat) (h : m ≤ leadWs t) : (t.take m).all isWsC = true := by
+  unfold leadWs at h
+  induction t generalizing m with
+  | nil => simp
+  | cons c cs ih =>
+    cases m with
+    | zero => simp
+    | succ m =>
+      rw [List.takeWhile_cons] at h
+      cases hc : isWsC c with
+      | false => simp [hc] at h
+      | true =>
+        simp only [hc, if_true, List.length_cons] at h
+        simp [hc, ih m (by omega)]
 
-/-- minimum indentation over the non-empty lines, starting from `acc` (`none` = no line seen yet) -/
-def minIndent : Option Nat → List ILine → Option Nat
-  | acc, [] => acc
-  | acc, none :: r => minIndent acc r
-  | acc, some (k, _, _) :: r => minIndent (some (match acc with | none => k | some a => min k a)) r
+theorem take_all_ws_of_all (t : Str) (m : Nat) (h : t.all isWsC = true) : (t.take m).all isWsC = true := by
+  simp only [List.all_eq_true] at h ⊢
+  exact fun x hx => h x (List.mem_of_mem_take hx)
 
-def WellFormedI (l : ILine) : Prop :=
-  match l with
-  | none => True
-  | some (_, body, _) => StartsNonWs body
+/-! ## the first loop computes the minimum of the line indentations -/
 
-theorem commonWs_eq_minIndent (ls : List ILine) (h : ∀ l ∈ ls, WellFormedI l) (acc : Option Nat) :
-    commonWs acc (ls.map ILine.toMLine) = minIndent acc ls := by
+/-- minimum of two optional counts (`none` = no count yet) -/
+def optMin : Option Nat → Option Nat → Option Nat
+  | none, b => b
+  | some a, none => some a
+  | some a, some b => some (min a b)
+
+theorem commonWs_eq_minOpt (ls : List MLine) (acc : Option Nat) :
+    commonWs acc ls = optMin acc (minOpt (ls.map lineIndent)) := by
   induction ls generalizing acc with
-  | nil => simp [commonWs, minIndent]
-  | cons l ls ih =>
-    have hl := h l (by simp)
-    have hr : ∀ l ∈ ls, WellFormedI l := fun x hx => h x (by simp [hx])
-    match l with
-    | none => simp [ILine.toMLine, commonWs, minIndent, ih hr]
-    | some (k, body, rest) =>
-      simp only [List.map_cons, ILine.toMLine, commonWs, minIndent]
-      rw [wsIndex_spaces k body hl]
-      exact ih hr _
-
-theorem minIndent_le_acc (ls : List ILine) (a : Nat) : ∃ m, minIndent (some a) ls = some m ∧ m ≤ a := by
-  induction ls generalizing a with
-  | nil => exact ⟨a, rfl, Nat.le_refl _⟩
+  | nil => cases acc <;> simp [commonWs, minOpt, optMin]
   | cons l ls ih =>
     match l with
-    | none => simpa [minIndent] using ih a
-    | some (k, _, _) =>
-      obtain ⟨m, hm, hle⟩ := ih (min k a)
-      exact ⟨m, by simpa [minIndent] using hm, Nat.le_trans hle (Nat.min_le_right _ _)⟩
+    | none => simp [commonWs, lineIndent, minOpt, ih]
+    | some (.link id, more) =>
+      simp only [commonWs, List.map_cons, lineIndent, minOpt]
+      cases minOpt (ls.map lineIndent) <;> cases acc <;> simp [optMin]
+    | some (.text t, more) =>
+      simp only [commonWs, List.map_cons, lineIndent]
+      rw [leadWs_eq_length]
+      cases hall : t.all isWsC with
+      | false =>
+        simp only [Bool.and_false, Bool.false_eq_true, if_false, minOpt, ih]
+        cases minOpt (ls.map lineIndent) <;> cases acc <;> simp [optMin] <;> omega
+      | true =>
+        have hlen : leadWs t = t.length := by
+          have := leadWs_eq_length t; rw [hall] at this; simpa using this
+        cases more with
+        | nil => simp [minOpt, ih]
+        | cons c cs =>
+          simp only [List.isEmpty_cons, Bool.false_and, Bool.false_eq_true, if_false, ih, hlen, if_true, minOpt]
+          cases minOpt (ls.map lineIndent) <;> cases acc <;> simp [optMin] <;> omega
 
-theorem minIndent_le_mem (ls : List ILine) (acc : Option Nat) (k : Nat) (body : Str) (rest : List Comp)
-    (hm : some (k, body, rest) ∈ ls) : ∃ m, minIndent acc ls = some m ∧ m ≤ k := by
-  induction ls generalizing acc with
-  | nil => simp at hm
-  | cons l ls ih =>
-    rcases List.mem_cons.mp hm with h | h
+theorem normaliseCommon_commonWs (ls : List MLine) : normaliseCommon (commonWs none ls) = commonIndent ls := by
+  simp [normaliseCommon, commonIndent, commonWs_eq_minOpt, optMin]
+
+theorem minOpt_le (l : List (Option Nat)) (k : Nat) (h : some k ∈ l) : ∃ m, minOpt l = some m ∧ m ≤ k := by
+  induction l with
+  | nil => simp at h
+  | cons x l ih =>
+    rcases List.mem_cons.mp h with h | h
     · subst h
-      simp only [minIndent]
-      cases acc with
-      | none => exact minIndent_le_acc ls k
-      | some a =>
-        obtain ⟨m, hm', hle⟩ := minIndent_le_acc ls (min k a)
-        exact ⟨m, hm', Nat.le_trans hle (Nat.min_le_left _ _)⟩
-    · match l with
-      | none => simpa [minIndent] using ih acc h
-      | some (k', _, _) => simpa [minIndent] using ih _ h
+      simp only [minOpt]
+      cases minOpt l with
+      | none => exact ⟨k, rfl, Nat.le_refl _⟩
+      | some b => exact ⟨min k b, rfl, Nat.min_le_left _ _⟩
+    · obtain ⟨m, hm, hle⟩ := ih h
+      match x with
+      | none => exact ⟨m, by simpa [minOpt] using hm, hle⟩
+      | some a => exact ⟨min a m, by simp [minOpt, hm], Nat.le_trans (Nat.min_le_right _ _) hle⟩
 
-/-- what is left of a line after removing `m` columns of indentation -/
-def ILine.stripped (m : Nat) : ILine → List Comp
-  | none => [nl]
-  | some (k, body, rest) => .text (spaces (k - m) ++ body) :: rest ++ [nl]
+theorem minOpt_mem (l : List (Option Nat)) (m : Nat) (h : minOpt l = some m) : some m ∈ l := by
+  induction l generalizing m with
+  | nil => simp [minOpt] at h
+  | cons x l ih =>
+    match x with
+    | none => simp only [minOpt] at h; exact List.mem_cons_of_mem _ (ih m h)
+    | some a =>
+      simp only [minOpt] at h
+      cases hr : minOpt l with
+      | none => simp [hr] at h; simp [h]
+      | some b =>
+        simp only [hr, Option.some.injEq] at h
+        by_cases hab : a ≤ b
+        · have : a = m := by omega
+          simp [this]
+        · have : b = m := by omega
+          exact List.mem_cons_of_mem _ (ih m (by rw [hr, this]))
 
-theorem stripLines_spaces (ls : List ILine) (m : Nat)
-    (h : ∀ k body rest, some (k, body, rest) ∈ ls → m ≤ k) :
-    stripLines m (ls.map ILine.toMLine) = some (ls.flatMap (ILine.stripped m)) := by
-  induction ls with
-  | nil => simp [stripLines]
-  | cons l ls ih =>
-    have hr : ∀ k body rest, some (k, body, rest) ∈ ls → m ≤ k := fun k b r hx => h k b r (by simp [hx])
-    simp only [List.map_cons, stripLines, ih hr, List.flatMap_cons]
-    match l with
-    | none => simp [ILine.toMLine, stripLine, ILine.stripped]
-    | some (k, body, rest) =>
-      have := h k body rest (by simp)
-      simp [ILine.toMLine, stripLine, dropBytes_spaces k m body this, ILine.stripped]
+theorem minOpt_none (l : List (Option Nat)) (h : ∀ x ∈ l, x = none) : minOpt l = none := by
+  induction l with
+  | nil => rfl
+  | cons x l ih =>
+    have hx := h x (by simp)
+    subst hx
+    simpa [minOpt] using ih (fun y hy => h y (by simp [hy]))
 
-end Slicec
-
-namespace Slicec
-
-theorem minIndent_attained (ls : List ILine) (acc : Option Nat) (m : Nat) (h : minIndent acc ls = some m) :
-    acc = some m ∨ ∃ k body rest, some (k, body, rest) ∈ ls ∧ k = m := by
-  induction ls generalizing acc with
-  | nil => left; simpa [minIndent] using h
-  | cons l ls ih =>
-    match l with
-    | none =>
-      rcases ih acc (by simpa [minIndent] using h) with h' | ⟨k, b, r, hm, hk⟩
-      · exact Or.inl h'
-      · exact Or.inr ⟨k, b, r, by simp [hm], hk⟩
-    | some (k, body, rest) =>
-      simp only [minIndent] at h
-      rcases ih _ h with h' | ⟨k', b, r, hm, hk⟩
-      · cases acc with
-        | none =>
-          simp at h'
-          exact Or.inr ⟨k, body, rest, by simp, h'⟩
-        | some a =>
-          simp at h'
-          by_cases hka : k ≤ a
-          · exact Or.inr ⟨k, body, rest, by simp, by omega⟩
-          · left; congr 1; omega
-      · exact Or.inr ⟨k', b, r, by simp [hm], hk⟩
-
-/-! ## character boundaries -/
+/-! ## character boundaries: the second loop cannot panic -/
 
 def utf8Len (s : Str) : Nat := (s.map Char.utf8Size).sum
 
@@ -185,6 +183,7 @@ theorem prefix_of_dropBytes (t : Str) (n : Nat) (suf : Str) (h : dropBytes t n =
         omega
       · simp at h
 
+/-- the model of `replace_range(..n, "")` returns normally exactly when `n` is a character boundary -/
 theorem dropBytes_isSome_iff (t : Str) (n : Nat) : (dropBytes t n).isSome ↔ OnBoundary t n := by
   constructor
   · intro h
@@ -194,42 +193,77 @@ theorem dropBytes_isSome_iff (t : Str) (n : Nat) : (dropBytes t n).isSome ↔ On
   · rintro ⟨pre, suf, rfl, rfl⟩
     simp [dropBytes_of_prefix]
 
-theorem stripLines_cons_isSome (n : Nat) (l : MLine) (ls : List MLine) :
-    (stripLines n (l :: ls)).isSome ↔ (stripLine n l).isSome ∧ (stripLines n ls).isSome := by
-  simp only [stripLines]
-  cases stripLine n l <;> cases stripLines n ls <;> simp
+/-- `char_indices().nth(n).unwrap_or(len)` is the UTF-8 length of the first `n` characters -/
+theorem endIndex_eq (t : Str) (n : Nat) : endIndex t n = utf8Len (t.take n) := by
+  induction t generalizing n with
+  | nil => simp [endIndex, utf8Len]
+  | cons c cs ih =>
+    cases n with
+    | zero => simp [endIndex, utf8Len]
+    | succ n => simp [endIndex, ih n, utf8Len]
 
-theorem stripLine_isSome_iff (n : Nat) (l : MLine) :
-    (stripLine n l).isSome ↔ ∀ t rest, l = some (Comp.text t, rest) → (dropBytes t n).isSome := by
+theorem endIndex_onBoundary (t : Str) (n : Nat) : OnBoundary t (endIndex t n) :=
+  ⟨t.take n, t.drop n, (List.take_append_drop n t).symm, (endIndex_eq t n).symm⟩
+
+theorem dropBytes_endIndex (t : Str) (n : Nat) : dropBytes t (endIndex t n) = some (t.drop n) := by
+  have := dropBytes_of_prefix (t.take n) (t.drop n)
+  rwa [List.take_append_drop, ← endIndex_eq] at this
+
+theorem stripLine_endIndex (n : Nat) (l : MLine) : stripLine (fun t => endIndex t n) l = some (lineWithout n l) := by
   match l with
-  | none => simp [stripLine]
-  | some (.link id, rest) => simp [stripLine]
-  | some (.text t0, rest0) =>
-    constructor
-    · intro h t rest heq
-      simp at heq
-      obtain ⟨rfl, rfl⟩ := heq
-      cases hd : dropBytes t0 n with
-      | none => simp [stripLine, hd] at h
-      | some x => simp
-    · intro h
-      have := h t0 rest0 rfl
-      obtain ⟨x, hx⟩ := Option.isSome_iff_exists.mp this
-      simp [stripLine, hx]
+  | none => rfl
+  | some (.link id, rest) => rfl
+  | some (.text t, rest) => simp [stripLine, dropBytes_endIndex, lineWithout]
 
-theorem stripLines_isSome_iff (n : Nat) (ls : List MLine) :
-    (stripLines n ls).isSome ↔ ∀ t rest, some (Comp.text t, rest) ∈ ls → (dropBytes t n).isSome := by
+theorem stripLines_endIndex (n : Nat) (ls : List MLine) :
+    stripLines (fun t => endIndex t n) ls = some (ls.flatMap (lineWithout n)) := by
   induction ls with
-  | nil => simp [stripLines]
-  | cons l ls ih =>
-    rw [stripLines_cons_isSome, stripLine_isSome_iff, ih]
-    constructor
-    · rintro ⟨h1, h2⟩ t rest hm
-      rcases List.mem_cons.mp hm with h | h
-      · exact h1 t rest h.symm
-      · exact h2 t rest h
-    · intro h
-      exact ⟨fun t rest heq => h t rest (by simp [heq]), fun t rest hm => h t rest (by simp [hm])⟩
+  | nil => rfl
+  | cons l ls ih => simp [stripLines, stripLine_endIndex, ih]
+
+/-! ## written lines: whitespace, then a body that starts with a non-blank character, then further components -/
+
+/-- a written line: empty, or a run of whitespace characters `ws` (any of the 25 code points, any mixture of widths), a body
+    that starts with a non-blank character, and further components -/
+abbrev ILine := Option (Str × Str × List Comp)
+
+def ILine.toMLine : ILine → MLine
+  | none => none
+  | some (ws, body, rest) => some (.text (ws ++ body), rest)
+
+def WellFormedI (l : ILine) : Prop :=
+  match l with
+  | none => True
+  | some (ws, body, _) => ws.all isWsC = true ∧ StartsNonWs body
+
+/-- the indentation of a written line, in characters -/
+def ILine.indent : ILine → Option Nat
+  | none => none
+  | some (ws, _, _) => some ws.length
+
+/-- what is left of a line after removing `m` characters of indentation -/
+def ILine.stripped (m : Nat) : ILine → List Comp
+  | none => [nl]
+  | some (ws, body, rest) => .text (ws.drop m ++ body) :: rest ++ [nl]
+
+theorem lineIndent_written (l : ILine) (h : WellFormedI l) : lineIndent l.toMLine = l.indent := by
+  match l, h with
+  | none, _ => rfl
+  | some (ws, body, rest), ⟨hws, hb⟩ =>
+    simp [ILine.toMLine, lineIndent, ILine.indent, not_all_ws_append ws body hb, leadWs_append ws body hws hb]
+
+theorem lineWithout_written (m : Nat) (l : ILine) (h : ∀ k, l.indent = some k → m ≤ k) :
+    lineWithout m l.toMLine = l.stripped m := by
+  match l with
+  | none => rfl
+  | some (ws, body, rest) =>
+    have := h ws.length rfl
+    simp [ILine.toMLine, lineWithout, ILine.stripped, List.drop_append_of_le_length this]
+
+theorem map_lineIndent_written (ls : List ILine) (h : ∀ l ∈ ls, WellFormedI l) :
+    (ls.map ILine.toMLine).map lineIndent = ls.map ILine.indent := by
+  rw [List.map_map]
+  exact List.map_congr_left fun l hl => lineIndent_written l (h l hl)
 
 end Slicec
 
@@ -517,18 +551,16 @@ theorem splitLines_plain (ls : List PLine) (h : ∀ l ∈ ls, l.WF) : splitLines
       rw [splitLinesAux, if_neg (spaces_append_ne_nl j b hb), splitLinesAux, if_pos rfl]
       simp [ih']
 
-theorem dropWhile_spaces (n : Nat) (b : Str) (h : StartsNonWs b) : (spaces n ++ b).dropWhile isWsC = b := by
+theorem dropWhile_ws_append (ws b : Str) (hws : ws.all isWsC = true) (h : StartsNonWs b) : (ws ++ b).dropWhile isWsC = b := by
   obtain ⟨c, r, rfl, hc⟩ := h
-  induction n with
-  | zero => simp [spaces, hc]
-  | succ n ih =>
-    have : spaces (n + 1) ++ c :: r = ' ' :: (spaces n ++ c :: r) := by simp [spaces, List.replicate_succ]
-    rw [this, List.dropWhile_cons, if_pos isWs_space, ih]
+  induction ws with
+  | nil => simp [hc]
+  | cons w ws ih =>
+    simp only [List.all_cons, Bool.and_eq_true] at hws
+    rw [List.cons_append, List.dropWhile_cons, if_pos hws.1, ih hws.2]
 
-theorem mem_spaces_append {n : Nat} {b : Str} {x : Char} (hx : x ∈ spaces n ++ b) : x = ' ' ∨ x ∈ b := by
-  rcases List.mem_append.mp hx with h | h
-  · left; exact (List.mem_replicate.mp h).2
-  · right; exact h
+theorem ws_ne_lbrace {x : Char} (h : isWsC x = true) : x ≠ '{' := by
+  intro hx; subst hx; exact absurd h (by decide)
 
 theorem takeWhile_all (p : Char → Bool) (l : Str) (h : ∀ y ∈ l, p y = true) : l.takeWhile p = l := by
   induction l with
@@ -557,68 +589,69 @@ theorem lexLine_plain (f : Nat) (x : Char) (xs : Str) (h : ∀ y ∈ x :: xs, y 
   simp only [lexMessage_plain x xs h]
   simp [lexLine, LexOut.cons]
 
-theorem lexOneLine_plain (n : Nat) (b : Str) (h : PlainBody b) :
-    lexOneLine (spaces n ++ b) = ⟨[.text (spaces n ++ b), .newline], none⟩ := by
+/-- a line made of any whitespace and a plain body is lexed as one `Text` (whitespace included) and the `Newline` -/
+theorem lexOneLine_plain (ws : Str) (hws : ws.all isWsC = true) (b : Str) (h : PlainBody b) :
+    lexOneLine (ws ++ b) = ⟨[.text (ws ++ b), .newline], none⟩ := by
   have hs := h.startsNonWs
   obtain ⟨c, r, rfl, hc, hat, hbr⟩ := h
-  have hmode : startMode (spaces n ++ c :: r) = .message := by
+  have hmode : startMode (ws ++ c :: r) = .message := by
     unfold startMode trimStart
-    rw [dropWhile_spaces n _ hs]
+    rw [dropWhile_ws_append ws _ hws hs]
     split
     · rename_i heq; simp at heq; exact absurd heq.1 hat
     · rfl
-  have hall : ∀ y ∈ spaces n ++ c :: r, y ≠ '{' := by
+  have hall : ∀ y ∈ ws ++ c :: r, y ≠ '{' := by
     intro y hy
-    rcases mem_spaces_append hy with rfl | hy
-    · decide
+    rcases List.mem_append.mp hy with hy | hy
+    · exact ws_ne_lbrace (List.all_eq_true.mp hws y hy)
     · exact hbr y hy
   unfold lexOneLine
   rw [hmode]
-  cases n with
-  | zero =>
-    simp only [spaces, List.replicate_zero, List.nil_append] at hall ⊢
+  cases ws with
+  | nil =>
+    simp only [List.nil_append] at hall ⊢
     exact lexLine_plain _ c r hall
-  | succ n =>
-    have e : spaces (n + 1) ++ c :: r = ' ' :: (spaces n ++ c :: r) := by simp [spaces, List.replicate_succ]
-    rw [e] at hall ⊢
+  | cons w ws =>
+    rw [List.cons_append] at hall ⊢
     exact lexLine_plain _ _ _ hall
 
-/-- the source text of a plain line at indentation `k` -/
-def PLine.src (k : Nat) : PLine → Str
+/-- the source text of a plain line written after the indentation `ind` -/
+def PLine.src (ind : Str) : PLine → Str
   | none => []
-  | some (j, b) => spaces (k + j) ++ b
+  | some (j, b) => (ind ++ spaces j) ++ b
 
-def PLine.toks (k : Nat) : PLine → List CTok
+def PLine.toks (ind : Str) : PLine → List CTok
   | none => [.newline]
-  | some (j, b) => [.text (spaces (k + j) ++ b), .newline]
+  | some (j, b) => [.text ((ind ++ spaces j) ++ b), .newline]
 
-def PLine.iline (k : Nat) : PLine → ILine
+def PLine.iline (ind : Str) : PLine → ILine
   | none => none
-  | some (j, b) => some (k + j, b, [])
+  | some (j, b) => some (ind ++ spaces j, b, [])
 
-theorem spaces_add (k j : Nat) : spaces k ++ spaces j = spaces (k + j) := by
-  simp [spaces, List.replicate_append_replicate]
+theorem all_ws_append_spaces (ind : Str) (hind : ind.all isWsC = true) (j : Nat) : (ind ++ spaces j).all isWsC = true := by
+  rw [List.all_append, hind, spaces_all_ws]; rfl
 
-theorem lineSrc_plain (k : Nat) (l : PLine) : lineSrc (spaces k) l.comps = l.src k := by
+theorem lineSrc_plain (ind : Str) (l : PLine) : lineSrc ind l.comps = l.src ind := by
   match l with
   | none => rfl
-  | some (j, b) => simp [PLine.comps, lineSrc, compSrc, PLine.src, ← spaces_add]
+  | some (j, b) => simp [PLine.comps, lineSrc, compSrc, PLine.src]
 
-theorem lexOneLine_pline (k : Nat) (l : PLine) (h : l.WF) : lexOneLine (l.src k) = ⟨l.toks k, none⟩ := by
+theorem lexOneLine_pline (ind : Str) (hind : ind.all isWsC = true) (l : PLine) (h : l.WF) :
+    lexOneLine (l.src ind) = ⟨l.toks ind, none⟩ := by
   match l, h with
   | none, _ => rfl
-  | some (j, b), hb => exact lexOneLine_plain (k + j) b hb
+  | some (j, b), hb => exact lexOneLine_plain (ind ++ spaces j) (all_ws_append_spaces ind hind j) b hb
 
-theorem lexComment_plain (k : Nat) (ls : List PLine) (h : ∀ l ∈ ls, l.WF) :
-    lexComment (ls.map (PLine.src k)) = ⟨ls.flatMap (PLine.toks k), none⟩ := by
+theorem lexComment_plain (ind : Str) (hind : ind.all isWsC = true) (ls : List PLine) (h : ∀ l ∈ ls, l.WF) :
+    lexComment (ls.map (PLine.src ind)) = ⟨ls.flatMap (PLine.toks ind), none⟩ := by
   induction ls with
   | nil => rfl
   | cons l ls ih =>
-    simp only [List.map_cons, lexComment, lexOneLine_pline k l (h l (by simp)), ih (fun x hx => h x (by simp [hx])),
+    simp only [List.map_cons, lexComment, lexOneLine_pline ind hind l (h l (by simp)), ih (fun x hx => h x (by simp [hx])),
       List.flatMap_cons]
 
-theorem parseLines_plain (k : Nat) (ls : List PLine) (fuel : Nat) (hf : ls.length < fuel) :
-    parseLines fuel (ls.flatMap (PLine.toks k)) = some (ls.map fun l => (l.iline k).toMLine, []) := by
+theorem parseLines_plain (ind : Str) (ls : List PLine) (fuel : Nat) (hf : ls.length < fuel) :
+    parseLines fuel (ls.flatMap (PLine.toks ind)) = some (ls.map fun l => (l.iline ind).toMLine, []) := by
   induction ls generalizing fuel with
   | nil =>
     cases fuel with
@@ -640,7 +673,7 @@ theorem parseLines_plain (k : Nat) (ls : List PLine) (fuel : Nat) (hf : ls.lengt
         simp [startsLine, parseComps, ih', toMLine, PLine.iline, ILine.toMLine]
 
 
-theorem length_le_toks (k : Nat) (ls : List PLine) : ls.length ≤ (ls.flatMap (PLine.toks k)).length := by
+theorem length_le_toks (ind : Str) (ls : List PLine) : ls.length ≤ (ls.flatMap (PLine.toks ind)).length := by
   induction ls with
   | nil => simp
   | cons l ls ih =>
@@ -672,8 +705,81 @@ theorem flatMap_congr_mem {α β} (l : List α) (f g : α → List β) (h : ∀ 
 
 def plainDoc (ls : List PLine) : DocC := { overview := some (plainMsg ls), params := [], returns := [], see := [] }
 
-theorem render_plainDoc (ls : List PLine) (k : Nat) (h : ∀ l ∈ ls, l.WF) :
-    renderComment (plainDoc ls) (spaces k) = ls.map (PLine.src k) := by
+theorem render_plainDoc (ls : List PLine) (ind : Str) (h : ∀ l ∈ ls, l.WF) :
+    renderComment (plainDoc ls) ind = ls.map (PLine.src ind) := by
   simp [renderComment, plainDoc, renderMsgLines, splitLines_plain ls h, lineSrc_plain]
+
+/-! ## a doc comment cannot make the parser panic unless the sanitizer does -/
+
+theorem Outcome.bind_eq_panic {ε α β} (x : Outcome ε α) (f : α → Outcome ε β) (s : String) (h : x.bind f = .panic s) :
+    x = .panic s ∨ ∃ a, x = .ok a ∧ f a = .panic s := by
+  cases x with
+  | ok a => exact Or.inr ⟨a, rfl, h⟩
+  | err e => simp [Outcome.bind] at h
+  | panic s' => simp [Outcome.bind] at h; exact Or.inl (by rw [h])
+
+/-- the sanitizer never panics -/
+def SanTotal (san : Sanitizer) : Prop := ∀ ls s, san ls ≠ .panic s
+
+theorem reduceLines_no_panic (san : Sanitizer) (hs : SanTotal san) (pend : Option CLexErr) (ls : List MLine) (rest : List CTok) (s : String) :
+    reduceLines san pend ls rest ≠ .panic s := by
+  unfold reduceLines
+  split
+  · cases ls with
+    | nil => simp
+    | cons l ls =>
+      intro h
+      rcases Outcome.bind_eq_panic _ _ _ h with h | ⟨a, _, h⟩
+      · exact hs _ _ h
+      · simp at h
+  · simp
+
+theorem parseSectionG_no_panic (san : Sanitizer) (hs : SanTotal san) (pend : Option CLexErr) (toks : List CTok) (s : String) :
+    parseSectionG san pend toks ≠ .panic s := by
+  unfold parseSectionG
+  simp only
+  split
+  · simp
+  · split
+    · simp
+    · intro h
+      rcases Outcome.bind_eq_panic _ _ _ h with h | ⟨a, _, h⟩
+      · exact reduceLines_no_panic san hs _ _ _ _ h
+      · simp at h
+
+theorem parseBlocksG_no_panic (san : Sanitizer) (hs : SanTotal san) (pend : Option CLexErr) (fuel : Nat) (c : DocC) (toks : List CTok)
+    (s : String) : parseBlocksG san pend fuel c toks ≠ .panic s := by
+  induction fuel generalizing c toks with
+  | zero => simp [parseBlocksG]
+  | succ fuel ih =>
+    intro h
+    unfold parseBlocksG at h
+    split at h
+    · split at h <;> simp at h
+    · rcases Outcome.bind_eq_panic _ _ _ h with h | ⟨a, _, h⟩
+      · exact parseSectionG_no_panic san hs _ _ _ h
+      · exact ih _ _ h
+    · rcases Outcome.bind_eq_panic _ _ _ h with h | ⟨a, _, h⟩
+      · exact parseSectionG_no_panic san hs _ _ _ h
+      · exact ih _ _ h
+    · rcases Outcome.bind_eq_panic _ _ _ h with h | ⟨a, _, h⟩
+      · exact parseSectionG_no_panic san hs _ _ _ h
+      · exact ih _ _ h
+    · split at h
+      · split at h
+        · exact ih _ _ h
+        · simp at h
+      · simp at h
+    · simp at h
+
+theorem parseCommentG_no_panic (san : Sanitizer) (hs : SanTotal san) (l : Str) (ls : List Str) (s : String) :
+    parseCommentG san (l :: ls) ≠ .panic s := by
+  rw [parseCommentG_nonempty san (l :: ls) (by simp)]
+  split
+  · simp
+  · intro h
+    rcases Outcome.bind_eq_panic _ _ _ h with h | ⟨a, _, h⟩
+    · exact reduceLines_no_panic san hs _ _ _ _ h
+    · exact parseBlocksG_no_panic san hs _ _ _ _ _ h
 
 end Slicec
